@@ -781,6 +781,44 @@ fn extreme_case<K: Kern<D>, const D: usize>(cx: &mut Ctx, r: &mut Rng, idx: usiz
         Ok(d) => format!("Ok:{}", d.number_of_cells()),
         Err(e) => format!("Err:{}", variant(&e)),
     });
+    // every preprocessing option on magnitudes whose differences / squared distances overflow: the mixed set,
+    // and an ordinary cluster with far outliers (one of them the lexicographically smallest point)
+    {
+        let far = [2f64.powi(600), 1e300, 1e200, 2f64.powi(520)][idx % 4];
+        let mut cluster: Vec<Vertex<f64, VData, D>> = Vec::new();
+        for i in 0..(D + 2) {
+            let mut c = [0f64; D];
+            for (j, x) in c.iter_mut().enumerate() {
+                *x = (((i * 7 + j * 3 + idx) % 5) as f64) + if i == j { 4.0 } else { 0.0 };
+            }
+            cluster.push(raw_vertex::<D>(c, 81_000 + i as u64));
+        }
+        let mut lo = [1.0f64; D];
+        lo[0] = -far;
+        let mut hi_p = [2.0f64; D];
+        hi_p[D - 1] = far;
+        let sets: Vec<(&str, Vec<Vertex<f64, VData, D>>)> = vec![
+            ("mixed", vs.clone()),
+            ("cluster+low outlier", cluster.iter().copied().chain([raw_vertex::<D>(lo, 81_100)]).collect()),
+            ("cluster+two outliers", cluster.iter().copied().chain([raw_vertex::<D>(lo, 81_100), raw_vertex::<D>(hi_p, 81_101)]).collect()),
+            ("outliers first", [raw_vertex::<D>(hi_p, 81_101), raw_vertex::<D>(lo, 81_100)].into_iter().chain(cluster.iter().copied()).collect()),
+        ];
+        for (sname, set) in &sets {
+            for order in 0..4usize {
+                for simplex in 0..2usize {
+                    let dedup = (order + simplex + idx) % 3;
+                    let o = Opts { order, dedup, simplex, retry: [0, 3][(order + idx) % 2] };
+                    let detail = serde_json::json!({"set": sname, "opts": o.name(), "far": format!("{far:e}")});
+                    raw_call(&mut cx.tr, "construct(options, overflowing magnitudes)", detail, || {
+                        match Dt::<K, D>::with_topology_guarantee_and_options(&K::default(), set, g, o.build(0)) {
+                            Ok(d) => format!("Ok:{}", d.number_of_cells()),
+                            Err(e) => format!("Err:{}", variant(&e)),
+                        }
+                    });
+                }
+            }
+        }
+    }
     let mut dt2 = Dt::<K, D>::with_empty_kernel_and_topology_guarantee(K::default(), g);
     for v in &vs {
         let vv = *v;
